@@ -58,8 +58,18 @@ func NewAvahiProvider(ifaceIndexes []int32) *AvahiProvider {
 var _ api.MdnsProviderInterface = (*AvahiProvider)(nil)
 
 func (a *AvahiProvider) Start(autoReconnect bool, cb api.MdnsResolveCB) bool {
+	return a.start(autoReconnect, cb, false)
+}
+
+// reconnect has to be true if this is invoked by the reconnect loop, it must not
+// start the provider again if it was shut down in the meantime
+func (a *AvahiProvider) start(autoReconnect bool, cb api.MdnsResolveCB, reconnect bool) bool {
 	a.mux.Lock()
 	defer a.mux.Unlock()
+
+	if reconnect && a.manualShutdown {
+		return false
+	}
 
 	a.autoReconnect = autoReconnect
 	a.resolveCB = cb
@@ -256,7 +266,7 @@ func (a *AvahiProvider) attemptReconnect(cb api.MdnsResolveCB, serviceData *mdns
 
 		<-time.After(time.Second)
 
-		if !a.Start(true, cb) {
+		if !a.start(true, cb, true) {
 			continue
 		}
 
